@@ -481,6 +481,14 @@ def main():
                 broken.append({"component": "model-eval", "family": fam, "detail": model_err[-1200:]})
                 log("model evaluation failed for %s: %s" % (fam, model_err[-600:]))
             spec_fail = sorted(i for i, v in spec_res.items() if v & 2)
+            # invariants the harness checks by itself (outside the model)
+            inv_fail = [i for i, c in enumerate(cases) if c.get("invariant")]
+            if inv_fail:
+                c = min((cases[i] for i in inv_fail[:200]), key=lambda c: len(json.dumps(c["input"])))
+                rp = write_replay(pid, fam, {"property": pid, "family": fam, "input": c["input"], "observed": c.get("observed"),
+                                             "verdict": "harness invariant broken: " + c["invariant"],
+                                             "failing_cases_this_run": len(inv_fail)})
+                violations.append((rp, True, "%d case(s) of family %s break a harness invariant: %s" % (len(inv_fail), fam, c["invariant"])))
             model_mis = sorted(i for i, v in (model_res or {}).items() if v & 1)
             # classify specification failures
             new_fail = []
@@ -513,7 +521,7 @@ def main():
                                "detail": "%d case(s): implementation differs from the model although the specification oracle accepts them" % len(only_model),
                                "case": c["input"], "observed": c.get("observed")})
                 log("correspondence broken for family %s: %d case(s) differ from the model" % (fam, len(only_model)))
-            elif not model_err and not new_fail:
+            elif not model_err and not new_fail and not inv_fail:
                 corr_ok += 1
             total_eval += summ["evaluations"]
             total_dnt += summ["distinct_nontrivial"]
